@@ -124,6 +124,27 @@ func runC14(c *mon.Ctx) {
 		c.DistinctBytes(w.Bytes)
 	})
 	c.MarkExhaustive("all ordered pairs of the 16 message kinds followed by FE, F8, a sysex and a note: 8 option sets x 2 levels x 2 chunkings")
+	// one chunk that starts with a sysex and ends with another sysex, other messages in between
+	c.Each("sandwich", c.N(300, 20_000), func(i int64, r *mon.Rand) {
+		mk := func(n int) []byte {
+			sx := make([]byte, n)
+			sx[0] = 0xF0
+			for j := 1; j < n-1; j++ {
+				sx[j] = byte(j*3+n) & 0x7F
+			}
+			sx[n-1] = 0xF7
+			return sx
+		}
+		a, b := r.Range(2, 600), r.Range(2, 600)
+		if i%2 == 0 {
+			a, b = r.Pick(256, 300, 400, 500), r.Pick(256, 300, 400, 511)
+		}
+		msgs := [][]byte{mk(a), {0x80, 0x3C, 0x00}, {0xF8}, {0xFE}, gen.LiveMsg(r, r.Intn(7), 1024), mk(b)}
+		w := gen.Serialize(nil, msgs, gen.SerOpts{})
+		c14Check(c, w.Bytes, [][]byte{w.Bytes}, []int32{7}, uint32(r.Pick(0, 0, 2048)))
+		c.DistinctBytes(w.Bytes)
+	})
+
 	c.Each("random", c.N(10_000, 1_500_000), func(i int64, r *mon.Rand) {
 		buf := uint32(r.Pick(0, 16, 64))
 		lc := liveCfg{buf: buf}
